@@ -937,6 +937,10 @@ static char *read_include_filename(Token **rest, Token *tok, bool *is_dquote) {
     // still there would be expanded to itself again and again.
     if (tok2->kind == TK_IDENT)
       error_tok(tok2, "expected a filename");
+    // All of it belongs to the line of this directive; a token made by
+    // ##, # or a dynamic macro still says that it begins a line.
+    for (Token *t = tok2; t->kind != TK_EOF; t = t->next)
+      t->at_bol = false;
     return read_include_filename(&tok2, tok2, is_dquote);
   }
 
